@@ -3,6 +3,7 @@ import itertools
 from driver.common import Case
 
 ID = "C13"
+NEEDS_BINARY = True
 LEAN_MODULES = ["Gv.Props.C13"]
 REQUIRED_THEOREMS = ["Gv.Props.C13." + n for n in [
     "patternTable_spec", "additive_statistic_preserved", "dedup_distinct_and_complete",
@@ -50,7 +51,7 @@ def rows_str(rows):
     return ",".join("%s:%s" % r for r in rows) if rows else "_"
 
 
-def gen(rng, tier):
+def _gen_core(rng, tier):
     for n in (1, 2, 3):
         for L in (1, 2, 3, 4):
             allc = list(itertools.product("AC-", repeat=n * L))
@@ -92,3 +93,22 @@ def shrink(c):
     if rows and len(rows[0][1]) > 1:
         for j in range(len(rows[0][1])):
             yield Case(c.op, [a[0], rows_str([(n, s[:j] + s[j + 1:]) for n, s in rows])] + a[2:])
+
+
+# ---- command-line glue: a multi-alignment Phylip input must be treated as its alignments one by one (`detmulti`) ----
+MULTI_CMDS = [['compress', '--weight-out', 'w.txt'], ['compress'], ['dedup'], ['dedup', '-l', 'd.log'], ['dedup', '--n-as-gap']]
+
+
+def gen(rng, tier):
+    from driver import multigen
+    for c in _gen_core(rng, tier):
+        yield c
+    for _ in range(2 if tier == "quick" else 20):
+        for argv in MULTI_CMDS:
+            yield multigen.multi_case(multigen.alignments(rng), argv, "cli-multi-" + "-".join(argv[:2]))
+
+
+def matches(c):
+    if c.op.startswith("det"):
+        return (c.impl or "").startswith("same")
+    return c.model == c.impl
